@@ -18,11 +18,14 @@ long verif_gk, verif_gk2, verif_w, verif_w2; int verif_flag;
 int verif_it_calls, verif_it_pos, verif_it_end;
 int verif_cur_type; const char *verif_cur_str; int verif_cur_len;     /* argument delivered by the latest get_arg_type */
 int verif_rec_type; int verif_rec_len; char verif_rec_buf[REF_MAXS + 1]; /* copy of the argument with index verif_gk */
+/* the rule's argument match with index verif_gk, copied by the harness before the call (the matcher does not write the
+ * rule): set?, kind, length, value.  Invariants talk about these scalars instead of dereferencing rule->args[verif_gk]
+ * (each dereference inside an invariant costs six generated pointer checks, three times). */
+_Bool verif_gk_set; int verif_gk_kind; long verif_gk_len; char verif_gk_val[REF_MAXS + 1];
+#define C07_ARG_SPEC_GK(t, a, al) (!verif_gk_set || REF_ARGM (verif_gk_kind, verif_gk_val, verif_gk_len, t, a, (long) (al)))
 /* representation -> specification: kind and value of the k-th argument match of a rule */
 #define C07_KIND(l) (((l) & BUS_MATCH_ARG_IS_PATH) ? REF_ARG_PATH : ((l) & BUS_MATCH_ARG_NAMESPACE) ? REF_ARG_NAMESPACE : REF_ARG_PLAIN)
 #define C07_LEN(l) ((long) ((l) & ~BUS_MATCH_ARG_FLAGS))
-#define C07_ARG_SPEC(rule, k, t, a, al) \
-  ((rule)->args[k] == NULL || REF_ARGM (C07_KIND ((rule)->arg_lens[k]), (rule)->args[k], C07_LEN ((rule)->arg_lens[k]), t, a, al))
 #include VERIF_TU
 #define IMP(a, b) (!(a) || (b))
 #define REACH(tag) __CPROVER_assert(0, "REACH:" tag)
@@ -153,6 +156,13 @@ void harness (void)
   unsigned am = nondet_uint (); __CPROVER_assume ((am & ~(unsigned) (BUS_MATCH_MESSAGE_TYPE | BUS_MATCH_INTERFACE)) == 0);
   __CPROVER_assume (IMP ((am & r.flags & BUS_MATCH_MESSAGE_TYPE), r.message_type == f_type));
   __CPROVER_assume (IMP ((am & r.flags & BUS_MATCH_INTERFACE), f_interface != NULL && ref_streq (f_interface, r.interface)));
+  /* ghost index (arbitrary, never assigned afterwards) and the copy of the rule's argument match at that index */
+  verif_gk = nondet_int (); verif_gk_set = 0; verif_gk_kind = 0; verif_gk_len = 0;
+  if ((r.flags & BUS_MATCH_ARGS) && verif_gk >= 0 && verif_gk < n && r.args[verif_gk] != NULL)
+    {
+      verif_gk_set = 1; verif_gk_kind = C07_KIND (r.arg_lens[verif_gk]); verif_gk_len = C07_LEN (r.arg_lens[verif_gk]);
+      for (int k = 0; k <= REF_MAXS; k++) verif_gk_val[k] = (k <= verif_gk_len) ? r.args[verif_gk][k] : 0;
+    }
   verif_w = -1; verif_it_calls = 0; verif_it_pos = 0; verif_it_end = 0; verif_rec_type = 0; verif_rec_len = 0; verif_cur_type = 0; verif_cur_str = NULL; verif_cur_len = 0;
 
   dbus_bool_t ret = match_rule_matches (&r, g_sender, g_addressed, g_msg, (BusMatchFlags) am);
@@ -169,7 +179,7 @@ void harness (void)
   int has_args = (r.flags & BUS_MATCH_ARGS) != 0;
   __CPROVER_assert (ret == 0 || ret == 1, "post0 result is a boolean");
   __CPROVER_assert (IMP (ret, hdr), "post1 match => every header key of the rule matches per specification (type, sender, interface, member, path, path_namespace, destination, eavesdrop)");
-  __CPROVER_assert (IMP (ret && has_args, G_AT (verif_gk, n, C07_ARG_SPEC (&r, verif_gk, verif_rec_type, verif_rec_buf, verif_rec_len))),
+  __CPROVER_assert (IMP (ret && has_args, G_AT (verif_gk, n, C07_ARG_SPEC_GK (verif_rec_type, verif_rec_buf, verif_rec_len))),
                     "post2 match => every argument match (argN / argNpath / arg0namespace) is satisfied per specification");
   __CPROVER_assert (IMP (!ret && verif_w < 0, !hdr), "post3 no match, decided before the arguments => a header key does not match per specification");
   __CPROVER_assert (IMP (!ret && verif_w >= 0, has_args && verif_w < n && verif_it_calls == verif_w + 1 && r.args[verif_w] != NULL &&
